@@ -892,6 +892,9 @@ class Evaluator:
         same = (cval(a) == cval(b)) if op in ('==', '!=') else (cval(a) is cval(b) or cval(a) == cval(b))
       elif a.op == 'ext' and b.op == 'ext':
         same = a is b
+      elif (a.op == 'const' and cval(a) is not None and b.op in ('ext', 'closure', 'class', 'enum', 'rec', 'obj', 'partial', 'bound')) or \
+           (b.op == 'const' and cval(b) is not None and a.op in ('ext', 'closure', 'class', 'enum', 'rec', 'obj', 'partial', 'bound')):
+        same = False
       elif (a.op == 'const' and cval(a) is None and b.op in ('rec', 'obj', 'list', 'tuple', 'closure', 'class', 'enum', 'ext', 'partial', 'dict')) or \
            (b.op == 'const' and cval(b) is None and a.op in ('rec', 'obj', 'list', 'tuple', 'closure', 'class', 'enum', 'ext', 'partial', 'dict')):
         same = False
@@ -1045,7 +1048,7 @@ class Evaluator:
           continue
         return T('sub', base, idx)
       return self.subscript(b, idx, n)
-    if base.op == 'dict' and is_const(idx):
+    if base.op == 'dict' and idx.op in ('const', 'enum'):
       for k, v in base.args:
         if k is idx:
           return v
